@@ -26,7 +26,7 @@ RULE = ('boundary sets enumerated exhaustively (ints +-3 of 2^5,2^7,2^8,2^15,2^1
         'it crosses a format boundary, nests >= 2 levels, uses a non-minimal form, or (bytes stream) is accepted by '
         'the reference decoder with >= 2 objects; distinct by encoded bytes.')
 ASSUMPTIONS = ['reference codec vlib/ref/msgpack_ref.py implements the MessagePack spec (self-tested against spec vectors on every run)',
-               'map keys are restricted to hashable Python values (nil, bool, int, float, str, bytes, arrays of those)',
+               'map keys are restricted to hashable Python values (nil, bool, int, float, str, bytes, ext, arrays of those); maps as keys and keys that collide as Python values (1 / 1.0 / True) cannot be held by a dict and are outside the value domain',
                'compatibility flag left at its default (False), as supp.remote/supp.server use it']
 
 
@@ -317,8 +317,9 @@ def value_strategy():
     exts = st.builds(ref.RExt, st.integers(-128, 127),
                      st.one_of(st.binary(max_size=20), st.sampled_from([1, 2, 4, 8, 16, 17, 255, 256]).map(lambda n: b'e' * n)))
     scalars = st.one_of(st.none(), st.booleans(), ints, floats, texts, bins, exts)
+    key_exts = st.builds(ref.RExt, st.integers(-128, 127), st.binary(max_size=4))
     key_scalars = st.one_of(st.none(), st.booleans(), st.integers(-2 ** 63, 2 ** 64 - 1), st.integers(-5, 40),
-                            st.floats(allow_nan=False), st.text(max_size=8), st.binary(max_size=8))
+                            st.floats(allow_nan=False), st.text(max_size=8), st.binary(max_size=8), key_exts)
     # array keys decode to tuples, at every nesting level: {(1, (2, 3)): ...}
     flat = st.lists(key_scalars, max_size=3).map(tuple)
     nested = st.lists(st.one_of(key_scalars, flat), max_size=3).map(tuple)
